@@ -79,7 +79,7 @@ func (C10) Generate(c *Ctx, r *Rand, index int) *Scenario {
 	case e.Family == "provenance":
 		out = "json0"
 	default:
-		out = Pick(rs, []string{"yaml", "yaml", "yaml", "yaml", "yaml", "json0", "json0", "json0", "props", "json"})
+		out = Pick(rs, []string{"yaml", "yaml", "yaml", "yaml", "yaml", "yaml", "json0", "json0", "json0", "json0", "props", "json", "xml", "xml", "lua", "shell", "csv", "tsv"})
 	}
 	switch out {
 	case "yaml":
@@ -95,6 +95,10 @@ func (C10) Generate(c *Ctx, r *Rand, index int) *Scenario {
 		argv = append(argv, "-o=json")
 	case "props":
 		argv = append(argv, "-o=props")
+	case "xml", "lua", "shell", "csv", "tsv":
+		// encoders with a narrower domain (and some with state of their own): a result they refuse
+		// fails the per-document reference in the same way
+		argv = append(argv, "-o="+out)
 	}
 	if format == "json" {
 		for _, f := range sc.Files {
@@ -163,7 +167,10 @@ var inlineCommentRe = regexp.MustCompile(`\s+#.*$`)
 
 // stripComments removes separator lines, comment lines, trailing comments
 // and blank lines: what is left is the data as printed.
+var xmlCommentRe = regexp.MustCompile(`(?s)<!--.*?-->`)
+
 func stripComments(b []byte) []byte {
+	b = xmlCommentRe.ReplaceAll(b, nil)
 	var out []byte
 	for _, l := range bytes.Split(b, []byte("\n")) {
 		t := bytes.TrimSpace(l)
@@ -171,7 +178,7 @@ func stripComments(b []byte) []byte {
 			continue
 		}
 		l = inlineCommentRe.ReplaceAll(l, nil)
-		out = append(out, l...)
+		out = append(out, bytes.TrimSpace(l)...)
 		out = append(out, '\n')
 	}
 	return out
@@ -384,6 +391,40 @@ func (C10) Judge(c *Ctx, sc *Scenario) []Violation {
 			}
 			if !c.Quiet {
 				c.Count("probe.provenance_records_checked")
+			}
+		}
+	}
+
+	// O10.4 in eval-all mode: `[.id, di, fi, filename]` collects one flat array, four entries per document
+	if raw == "[.id, @DI@, @FI@, filename]" && outFmt == "json0" && combined.Exit == 0 && len(files) > 0 {
+		ea := sc.Clone()
+		ea.Plan.Readers = nil
+		ea.Argv = append([]string{"ea"}, sc.Argv...)
+		o := c.Exec(ea)
+		var flat []any
+		if o.Exit == 0 && json.Unmarshal(bytes.TrimSpace(o.Stdout), &flat) == nil && len(flat)%4 == 0 {
+			truth := map[string]DocRef{}
+			for _, d := range layout {
+				if d.ID != "" {
+					truth[d.ID] = d
+				}
+			}
+			for k := 0; k+3 < len(flat); k += 4 {
+				id, _ := flat[k].(string)
+				d, known := truth[id]
+				if !known {
+					continue
+				}
+				di, ok1 := flat[k+1].(float64)
+				fi, ok2 := flat[k+2].(float64)
+				fn, _ := flat[k+3].(string)
+				if !ok1 || !ok2 || int(di) != d.DocIndex || int(fi) != d.FileIndex || fn != d.Name {
+					add("O10.4", "provenance mode=ea", d.Class, fmt.Sprintf("eval-all: document %s is document %d of file %d (%s) but yq reports di=%v fi=%v filename=%v", id, d.DocIndex, d.FileIndex, d.Name, flat[k+1], flat[k+2], flat[k+3]))
+					break
+				}
+			}
+			if !c.Quiet {
+				c.Count("probe.provenance_checked_in_eval_all")
 			}
 		}
 	}
